@@ -288,6 +288,15 @@ func runC01(cfg config) {
 	// ---- decimal elements as FHIR allows them: exponents, small and absurd --------------------------------------------------
 	for _, dv := range []string{"1e2", "1E-2", "-1.5e3", "1e30", "1e-30", "1e308", "1e4096", "1e4097", "1e100000", "1e1000000", "1e999999999", "1e-999999999", "-9e999999999", "1e2147483647", "1e2147483648", "1e99999999999999999999", "0e999999999", "1.0e+5", "1e", "e5", ".5", "5.", "+5", "0x10", "NaN", "Infinity", ""} {
 		el := &dtpb.Decimal{Value: dv}
+		qel := &dtpb.Quantity{Value: &dtpb.Decimal{Value: dv}, Code: &dtpb.Code{Value: "mg"}}
+		for _, src := range []string{"%q > 1 'mg'", "%q = 1 'mg'", "%q + 1 'mg'", "%q.toString()", "%q = %q", "%q.value + 1", "%q * 2"} {
+			src := src
+			record("evaluate", fmt.Sprintf("Evaluate(%q) with %%q a Quantity element of value %q", src, dv), func() {
+				if e, err := fhirpath.Compile(src, compopts.WithExperimentalFuncs()); err == nil {
+					verifhook.Evaluate(e, []proto.Message{patients[0]}, evalopts.EnvVariable("q", qel))
+				}
+			})
+		}
 		for _, src := range []string{"%d", "%d + 1", "%d * 2.5", "%d / 3.0", "%d > 1", "%d = %d", "%d.round(2)", "%d.toString()", "%d.floor()", "%d.abs()", "%d.sqrt()", "%d.toInteger()", "%d.toQuantity()", "%d.convertsToDecimal()", "-%d", "%d.toString().toDecimal()", "%d mod 7", "%d div 3", "(%d | %d).distinct()", "%d ~ 1.0"} {
 			src := src
 			record("evaluate", fmt.Sprintf("Evaluate(%q) with %%d a decimal element %q", src, dv), func() {
